@@ -565,6 +565,78 @@ fn event_function_scale() -> Option<String> {
     None
 }
 
+/// C19: for a linear homogeneous problem (atol = 0), a callback that doubles the state at one accepted step and returns
+/// ModifiedSolution doubles everything that follows: the same step sequence, states exactly twice those of the plain run
+fn modified_solution_doubling() -> Option<String> {
+    use ivp::methods::{BDF, DOP853, DOPRI5, RADAU, RK23};
+    use ivp::solout::SolOut;
+    struct Lin;
+    impl IVP for Lin {
+        fn ode(&self, _t: f64, y: &[f64], d: &mut [f64]) { d[0] = -y[0] + 0.5 * y[1]; d[1] = 0.25 * y[0] - 2.0 * y[1]; }
+        fn jac(&self, _t: f64, _y: &[f64], j: &mut ivp::matrix::Matrix) { j[(0, 0)] = -1.0; j[(0, 1)] = 0.5; j[(1, 0)] = 0.25; j[(1, 1)] = -2.0; }
+    }
+    struct Rec { at: usize, fac: f64, n: usize, log: Vec<(f64, f64, Vec<f64>)> }
+    impl SolOut for Rec {
+        fn solout(&mut self, xold: f64, x: &mut f64, y: &mut [f64], _i: Option<&StepInterpolant<'_>>) -> ControlFlag {
+            self.n += 1;
+            if self.n == self.at { for v in y.iter_mut() { *v *= self.fac; } self.log.push((xold, *x, y.to_vec())); return ControlFlag::ModifiedSolution; }
+            self.log.push((xold, *x, y.to_vec()));
+            ControlFlag::Continue
+        }
+    }
+    let run = |name: &str, at: usize, fac: f64| -> Vec<(f64, f64, Vec<f64>)> {
+        let mut r = Rec { at, fac, n: 0, log: Vec::new() };
+        let (rt, at0): (ivp::methods::Tolerance, ivp::methods::Tolerance) = (1e-6.into(), 0.0.into());
+        match name {
+            "RADAU" => { let _ = RADAU::builder().build().solve(&Lin, 0.0, &[1.0, 1.0], 2.0, rt, at0, Some(&mut r)); }
+            "BDF" => { let _ = BDF::builder().build().solve(&Lin, 0.0, &[1.0, 1.0], 2.0, rt, at0, Some(&mut r)); }
+            "DOPRI5" => { let _ = DOPRI5::builder().build().solve(&Lin, 0.0, &[1.0, 1.0], 2.0, rt, at0, Some(&mut r)); }
+            "DOP853" => { let _ = DOP853::builder().build().solve(&Lin, 0.0, &[1.0, 1.0], 2.0, rt, at0, Some(&mut r)); }
+            _ => { let _ = RK23::builder().build().solve(&Lin, 0.0, &[1.0, 1.0], 2.0, rt, at0, Some(&mut r)); }
+        }
+        r.log
+    };
+    for name in ["RK23", "DOPRI5", "DOP853", "RADAU", "BDF"] {
+        let base = run(name, usize::MAX, 1.0);
+        for at in [3usize, 6] {
+            if at >= base.len() { continue; }
+            // an unchanged state handed back with ModifiedSolution is a no-op
+            let same = run(name, at, 1.0);
+            if same.len() != base.len() || (0..base.len()).any(|k| same[k] != base[k]) {
+                let k = (0..base.len().min(same.len())).find(|&k| same[k] != base[k]).unwrap_or(0);
+                return Some(format!("{}: callback {} returns ModifiedSolution without changing the state; the run then has {} accepted steps instead of {}, first difference at callback {}: step [{:e}, {:e}] against [{:e}, {:e}]", name, at, same.len() - 1, base.len() - 1, k + 1, same[k].0, same[k].1, base[k].0, base[k].1));
+            }
+            if name == "BDF" { continue; }
+            if name == "RADAU" {
+                // Radau's Newton starting values are extrapolated from the previous step and do not scale with the state, so the
+                // continuation is not bit-for-bit twice the plain run; but the error scale must be that of the modified state:
+                // scaling the state by 2^20 must not change the number of steps taken (a stale scale makes the error norm 10^6 times
+                // too large and the following steps 30 times too short)
+                let big = run(name, at, 1048576.0);
+                let (nb, np) = (big.len() as i64, base.len() as i64);
+                if (nb - np).abs() > 2 {
+                    return Some(format!("RADAU: the state is scaled by 2^20 in callback {} (ModifiedSolution, atol = 0, linear homogeneous problem): the run then takes {} accepted steps, the plain run {}; step after the callback: [{:e}, {:e}] against [{:e}, {:e}]", at, nb - 1, np - 1, big[at].0, big[at].1, base[at].0, base[at].1));
+                }
+                continue;
+            }
+            let dbl = run(name, at, 2.0);
+            if dbl.len() != base.len() { return Some(format!("{}: doubling the state in callback {} changes the number of accepted steps from {} to {}", name, at, base.len() - 1, dbl.len() - 1)); }
+            for k in 0..base.len() {
+                let f = if k + 1 >= at { 2.0 } else { 1.0 };
+                // explicit methods: exactly; Radau: up to the accuracy of its Newton iteration (the starting values of the iteration
+                // are extrapolated from the previous step and do not scale with the state)
+                let tol = if name == "RADAU" { 1e-6 } else { 0.0 };
+                let same_t = (dbl[k].0 - base[k].0).abs() <= tol * (1.0 + base[k].0.abs()) && (dbl[k].1 - base[k].1).abs() <= tol * (1.0 + base[k].1.abs());
+                let same_y = (0..2).all(|j| (dbl[k].2[j] - f * base[k].2[j]).abs() <= tol * (f * base[k].2[j]).abs());
+                if !(same_t && same_y) {
+                    return Some(format!("{}: the state is doubled in callback {} (ModifiedSolution); callback {} then reports step [{:e}, {:e}] with y = {:?}, the plain run has [{:e}, {:e}] with y = {:?} (expected exactly {} times that)", name, at, k + 1, dbl[k].0, dbl[k].1, dbl[k].2, base[k].0, base[k].1, base[k].2, f));
+                }
+            }
+        }
+    }
+    None
+}
+
 fn main() {
     let which = std::env::args().nth(1).unwrap_or_default();
     let r = match which.as_str() {
@@ -575,6 +647,7 @@ fn main() {
         "default_mass" => default_mass(),
         "matrix_dense_model" => matrix_dense_model(),
         "lu_small" => lu_small(),
+        "modified_solution_doubling" => modified_solution_doubling(),
         "event_function_scale" => event_function_scale(),
         "tiny_time_scale" => tiny_time_scale(),
         "brent_stays_in_bracket" => brent_stays_in_bracket(),
